@@ -20,6 +20,7 @@ UNITS_OF = {
     "C08": ["format"],
     "C18": ["owner"],
     "C19": ["envdl"],
+    "C16": ["hash"],
 }
 
 
@@ -114,7 +115,7 @@ def clause_tags(udir, incdirs, fnames):
                 o2 = mm.end() - 1
                 c2 = match_close(rest, o2, "(", ")")
                 kind = mm.group(2)
-                tagm = re.match(r"\s*/\*@\s*([\w.\-]+)\s*\*/", rest[c2 + 1:c2 + 200])
+                tagm = re.match(r"\s*;?\s*/\*@\s*([\w.\-]+)\s*\*/", rest[c2 + 1:c2 + 200])
                 if kind == "ensures":
                     n += 1
                     if tagm:
